@@ -91,6 +91,11 @@ func (s *State) get(k HeapKey) string {
 	switch s.kind {
 	case stBase:
 		t = s.c.declare(fmt.Sprintf("%s@%d", k.Name, s.epoch), k.Sort)
+		if k.Ref != "" {
+			s.c.heapRefAxiom(k, t, false, s.get(allocKey))
+		} else if k.Name == allocKey.Name {
+			s.c.axiom(fmt.Sprintf("(>= %s 0)", t), t)
+		}
 	case stDerived:
 		if s.key == k.Name {
 			t = s.term
@@ -123,11 +128,21 @@ func (s *State) get(k HeapKey) string {
 			cellSort := strings.TrimSuffix(strings.TrimPrefix(k.Sort, "(Array Int "), ")")
 			for i, r := range rs {
 				fresh := s.c.declare(fmt.Sprintf("%s@L%d_c%d", k.Name, s.epoch, i), cellSort)
+				if k.Ref != "" {
+					s.c.heapRefAxiom(k, fresh, true, s.get(allocKey))
+				}
 				term = fmt.Sprintf("(store %s %s %s)", term, r, fresh)
 			}
 			t = s.c.define(fmt.Sprintf("%s@L%d", k.Name, s.epoch), k.Sort, term)
+		} else if k.Name == allocKey.Name {
+			// the watermark at a loop head: unknown, but not below its value before the loop
+			t = s.c.declare(fmt.Sprintf("%s@L%d", k.Name, s.epoch), k.Sort)
+			s.c.axiom(fmt.Sprintf("(>= %s %s)", t, s.entry.get(k)), t)
 		} else if s.modAll || s.mod[k.Name] {
 			t = s.c.declare(fmt.Sprintf("%s@L%d", k.Name, s.epoch), k.Sort)
+			if k.Ref != "" {
+				s.c.heapRefAxiom(k, t, false, s.get(allocKey))
+			}
 		} else {
 			t = s.entry.get(k)
 		}
@@ -338,6 +353,11 @@ func (c *FuncCtx) ptrTerm(v Val) string {
 			t = fmt.Sprintf("(addr_idx %s %s)", t, el.Index)
 		} else {
 			c.needDecl("addr_fld", "(declare-fun addr_fld (Int Int) Int)")
+			if !c.needed["addr_fld_ax"] {
+				c.needed["addr_fld_ax"] = true
+				// the address of a field of an object is nil only if the object pointer is
+				c.axiom("(forall ((p Int) (i Int)) (! (=> (not (= p 0)) (not (= (addr_fld p i) 0))) :pattern ((addr_fld p i))))", "addr_fld")
+			}
 			t = fmt.Sprintf("(addr_fld %s %d)", t, el.Field)
 		}
 	}
